@@ -41,39 +41,80 @@ LEVEL_TEXT = ("Lean theorems over the model of match_geometries (matrix-fill loo
               "(brute force or certificate: C07_holds_by_cert) is proved equivalent to the property, so its evaluation on every real "
               "output of match_geometries means the property (optimality within 2^-40, exact on dyadic matrices). For every shape "
               "(n, m) in {0..3}^2 and every answer scipy's contract allows, match_geometries is traced on symbolic affinities and "
-              "proved equal to the model for all rational entries.")
+              "proved equal to the model for all rational entries. Follow-up: a whole call is modelled from the coordinates and the "
+              "buffers for every pair with a closed-form affinity (matchCall over the C06 dispatcher on exact rectangles; "
+              "C07_call_spec: never raises for non-negative buffers, all clauses for the buffers of *this* call), Python's binding "
+              "of positional / keyword / omitted arguments to the signature is modelled (C07_bind_positional_eq_keyword, "
+              "C07_match_call_styles; the live signatures are re-extracted and discharged against the table on every run), histories "
+              "are answered call by call (C07_history_step) and an implementation that memoises an intermediate result agrees with "
+              "the pure model on every history exactly when its key determines the result (C07_memo_full_key_sound / "
+              "_partial_key_unsound, instance C07_stale_buffer_history); the verdict against the *independent* affinity matrix with "
+              "a per-entry tolerance is given its meaning by C07_holds_ind (via C07_optimal_perturb).")
 LEVEL_NOTE = ("Unmodelled: the Hungarian/LAPJV algorithm of scipy.optimize.linear_sum_assignment (its answer is a parameter; "
               "ValidAssignment and optimality are checked on every answer against the verified brute force up to 5x5 quick / 7x7 "
-              "thorough and against a Lean-checked duality certificate beyond); compute_affinity (C06) supplies the matrix; binary64 "
-              "summation inside scipy (tolerance 2^-40). Beyond the symbolic ties at fixed small shapes the model is tied to the code by "
-              "generator-bounded correspondence (real geometries, stubbed-affinity matrices, stubbed solver answers; exhaustive small "
-              "scopes). The symbolic ties replace numpy's zeros/array, float, compute_affinity and linear_sum_assignment inside the "
-              "traced module by stubs.")
+              "thorough and against a Lean-checked duality certificate beyond); binary64 summation inside scipy (tolerance 2^-40). "
+              "The affinity matrix is stated independently of the code under test: by the Lean closed form for TimeStamp / "
+              "TimeInterval / BoundingBox pairs and time geometries against polygons (tolerance 2^-40 per entry), by GEOS called by "
+              "the harness on shapes built from the coordinates for polygons in the area branch (2^-40) and for the point / line "
+              "types, which are buffered by the recipe of the C11 model (scale by 1/buffer, buffer 1 with round caps and mitre "
+              "joins, scale back, clip; tolerance 2^-20: the exact outline of a GEOS buffer is not pinned by C07). The library's "
+              "compute_affinity is a monitored contract (every entry compared with the independent one), not the oracle; the "
+              "bit-exact comparison of reported affinities still uses it. Histories are generator-bounded: sequences of 2-4 calls "
+              "over neighbours of a call (other buffers, buffers omitted, exchanged lists, a moved / added geometry, reused, "
+              "assigned-to and copied objects, lists edited in place, lazily interleaved generators), plus a pristine-process "
+              "probe (a forked server that imported the library and never called it) as purity monitor: every 7th call must give "
+              "the same answer there; a failing call that answers differently there is turned into a short history that "
+              "reproduces in a fresh process. State that hinges on object identities (id-keyed caches) is detected but its "
+              "replays are only deterministic for the reuse-by-assignment histories. Beyond the symbolic ties at fixed small "
+              "shapes the model is tied to the code by generator-bounded correspondence (real geometries, stubbed-affinity "
+              "matrices, stubbed solver answers; exhaustive small scopes). The symbolic ties replace numpy's zeros/array, float, "
+              "compute_affinity and linear_sum_assignment inside the traced module by stubs.")
 TECHNIQUE = ("Lean 4 proof over model with the solver as a parameter; verified brute-force optimum and Lean-checked LP-duality "
-             "certificates as run-time monitors; symbolic-trace equality obligations at fixed shapes; exhaustive small-scope and "
-             "random correspondence")
+             "certificates as run-time monitors; symbolic-trace equality obligations at fixed shapes; signature tables regenerated "
+             "from the live functions; an affinity oracle independent of the code under test (Lean closed forms, GEOS on the "
+             "coordinates); exhaustive small-scope and random correspondence over inputs, construction / call styles and "
+             "histories; pristine-process purity probe")
 RULE = ("lists of 0-5 (thorough 0-7) geometries on tie-rich grids (near-miss instants, slivers, zero-width boxes, aliased lists), "
-        "long lists up to 10 (16), exhaustive lists over a small pool, random geometries of all types, exhaustive / random affinity "
-        "matrices (up to 12x12, thorough 25x25, tiny entries) through the real match_geometries with compute_affinity stubbed, and "
-        "with the solver's answer stubbed as well; non-trivial = at least one source and one target; distinct = distinct "
-        "(operation, input)")
+        "long lists up to 10 (16) and two (eight) lists of >= 1024 pairs, exhaustive lists over a small pool, random geometries of all "
+        "types, all 81 ordered type pairs x 5 buffer settings, every construction / call style (positional, keyword in any order, "
+        "buffers omitted; float / int / numpy scalars; list / tuple / Sequence / object array; constructor / dict / JSON / copies / "
+        "tuples / ints / numpy coordinates; shared objects), tolerance-sized offsets around `affinity > 0` at magnitudes 1 and 1e6 "
+        "and every point of the 10 ms lattice, exhaustive / random affinity matrices (up to 12x12, thorough 25x25, entries down to "
+        "1e-12, alternatives 1e-12 apart, shapes 17x17, 33x32, 3x400, 2x600, 1030x1, 1x1030, 257x1) through the real "
+        "match_geometries with compute_affinity stubbed, and with the solver's answer stubbed as well; histories: 110 (900) "
+        "sequences of 2-4 calls of match_geometries (fresh / reused / assigned-to / copied objects, in-place list edits, poisoned "
+        "results, results re-read after later calls, arguments snapshotted), 50 (400) lazily interleaved pairs / triples, "
+        "sequences of stubbed calls of one shape, every 7th call repeated in a pristine process; non-trivial = at least one "
+        "source and one target (histories: a step answered); distinct = distinct (operation, input)")
 TRUSTED = ["scipy.optimize.linear_sum_assignment (answer checked per case: ValidAssignment, optimal within tolerance)",
-           "compute_affinity as the supplier of the matrix (property C06)",
+           "GEOS (shapely) called by the harness on shapes built from the coordinates: area, intersection area, bounds, and buffer "
+           "with round caps / mitre joins for the point / line types (harness/c07_oracle.py; the recipe is the C11 model's)",
+           "the library's compute_affinity only as a monitored contract: every entry is compared with the independent affinity "
+           "(tolerance 2^-40, 2^-20 where a GEOS buffer is involved); MAX_FREQUENCY = 5 000 000 (table obligation of C03)",
            "the stubs replacing compute_affinity (a table lookup) and linear_sum_assignment (a given answer) in the matrix / solver "
            "operations, and numpy zeros/array + float in the symbolic traces (object arrays holding symbolic numbers)",
-           "nothing about the certificate generator (exact Hungarian method in the harness): Lean checks every certificate"]
+           "the pristine-process probe (os.fork of a server that imported the library): only says whether the same call gives the "
+           "same answer in a fresh process, never what the answer should be",
+           "nothing about the certificate generator (exact rectangular Hungarian method in the harness): Lean checks every certificate"]
 ASSUMPTIONS = ["scipy's answer is a valid assignment (monitored on every case)",
                "optimality is checked up to 2^-40 on real geometries (scipy sums binary64 values, the model exact rationals), "
-               "exactly on dyadic matrices",
-               "ordered-field semantics for the symbolic ties (no rounding)"]
+               "exactly on dyadic matrices; against the independent matrix up to min(n, m) tau + 2^-40 (C07_holds_ind)",
+               "ordered-field semantics for the symbolic ties (no rounding)",
+               "buffers are non-negative (negative buffers are modelled - matchCall raises exactly when a buffered type is "
+               "reached - but outside the property's quantifier and not generated)"]
 NOT_COMPARED = ["order of the yielded matches (compared as a sorted multiset; the symbolic ties compare sorted lists, "
                 "C07_sortEntries_perm)",
                 "tie-breaking among equally good assignments (an output that differs from the model's only by the "
                 "solver's choice among optimal assignments is accepted when it satisfies `holds` and equals the model "
-                "run on its own pairs)",
+                "run on its own pairs; inside a history such a difference is a broken correspondence, not a violation)",
                 "behaviour when the solver's answer violates scipy's contract (repeated row, index out of range): modelled "
                 "(LoopErr), exercised, agreement only tallied",
-                "types of the yielded indices (int vs numpy integer) and the sign of a zero affinity"]
+                "types of the yielded indices (int vs numpy integer) and the sign of a zero affinity",
+                "the exact outline of GEOS's buffer of a point / line (entries involving one are compared with 2^-20, not 2^-40)",
+                "TypeErrors of malformed calls (too many positional arguments, a name given twice, a missing list): modelled "
+                "(bindArgs, C07_match_call_styles), not run against the code - the property says nothing about them",
+                "numpy.float32 buffers and coordinates are only used where binary32 holds the value exactly; bool buffers, "
+                "geometries loaded from AOEF files and generators (no len) as lists are not exercised"]
 
 TOL = Fraction(1, 2 ** 40)
 _CTX = None
@@ -310,9 +351,11 @@ def _observe_lib(inp):
     from soundevent.evaluation import compute_affinity
     src, tgt = _geoms(inp)
     m = np.zeros((len(src), len(tgt)))
+    positional = (len(inp["source"]) + len(inp["target"])) % 2 == 1      # the public function is also called positionally
     for i, a in enumerate(src):
         for j, b in enumerate(tgt):
-            m[i, j] = compute_affinity(a, b, time_buffer=_f(inp["tb"]), freq_buffer=_f(inp["fb"]))
+            m[i, j] = (compute_affinity(a, b, _f(inp["tb"]), _f(inp["fb"])) if positional else
+                       compute_affinity(a, b, time_buffer=_f(inp["tb"]), freq_buffer=_f(inp["fb"])))
     return {"n": len(src), "m": len(tgt), "matrix": [[rat(float(x)) for x in row] for row in m], "assigned": _solve(m)}
 
 
@@ -351,8 +394,8 @@ def _impl_matrix(inp):
     mat = [[_f(x) for x in row] for row in inp["matrix"]]
     src, tgt, ids_s, ids_t = _stub_geoms(inp["n"], inp["m"])
 
-    def stub(g1, g2, *a, **kw):
-        return mat[ids_s[id(g1)]][ids_t[id(g2)]]
+    def stub(geometry1=None, geometry2=None, *a, **kw):
+        return mat[ids_s[id(geometry1)]][ids_t[id(geometry2)]]
     with _patched(compute_affinity=stub) as M:
         out = list(M.match_geometries(src, tgt))
     return {"val": _canon(out)}
@@ -484,7 +527,8 @@ def _solver_stub(n, m, asg, seen=None):
     """stands for linear_sum_assignment: returns the given pairs whatever the matrix.  A rewrite may hand the
     solver the transposed matrix (and swap the answer back): the orientation is read off the shape, for square
     matrices off a probe made by `_solver_selftest`; the answer is then given for the transposed problem."""
-    def solver(cost, *a, **kw):
+    def solver(cost_matrix=None, maximize=False, *a, **kw):
+        cost = cost_matrix
         shp = tuple(np.shape(cost))
         if seen is not None:
             seen.append(cost)
@@ -507,8 +551,8 @@ def _impl_solver(inp):
     mat = [[_f(x) for x in row] for row in inp["matrix"]]
     src, tgt, ids_s, ids_t = _stub_geoms(inp["n"], inp["m"])
 
-    def aff(g1, g2, *a, **kw):
-        return mat[ids_s[id(g1)]][ids_t[id(g2)]]
+    def aff(geometry1=None, geometry2=None, *a, **kw):
+        return mat[ids_s[id(geometry1)]][ids_t[id(geometry2)]]
     solver = _solver_stub(inp["n"], inp["m"], inp["assigned"], inp.get("_seen"))
     with _patched(compute_affinity=aff, linear_sum_assignment=solver) as M:
         out = list(M.match_geometries(src, tgt))
@@ -1105,14 +1149,29 @@ def _holds_interleaved(ctx, h, io):
     return None
 
 
+def _soft(name, compare):
+    """inside a history a step whose output satisfies the property (`holds`) but differs from the model is a broken
+    correspondence, as it is for the base operation on its own (determined=False) - never a property violation"""
+    def cmp(inp, io, mo):
+        msg = compare(inp, io, mo)
+        if msg and _CTX is not None:
+            _CTX.fail("correspondence", name, inp=inp, impl=io, model=mo, detail=msg + " (inside a history)")
+        return None
+    return cmp
+
+
 # the base operations of the histories: judged step by step without the probe (the probe works on whole histories)
-_MATCH_RAW = Op("match", _impl_match, to_model=_geoms_args, model_op="match_geoms", compare=_mk_compare(_matrix_of),
+_MATCH_RAW = Op("match", _impl_match, to_model=_geoms_args, model_op="match_geoms",
+                compare=_soft("match", _mk_compare(_matrix_of)),
                 holds=_judge_match, determined=False, nontrivial=_nontrivial, mode="exact")
 _RAW.update({"match": _MATCH_RAW,
-             "match_matrix": Op("match_matrix", _impl_matrix, to_model=_matrix_args, compare=_mk_compare(_matrix_args),
+             "match_matrix": Op("match_matrix", _impl_matrix, to_model=_matrix_args,
+                                compare=_soft("match_matrix", _mk_compare(_matrix_args)),
                                 holds=_mk_holds(_matrix_args, Fraction(0)), determined=False, nontrivial=_nontrivial,
                                 mode="exact", model_op="match"),
-             "match_solver": OPS["match_solver"]})
+             "match_solver": Op("match_solver", _impl_solver, to_model=_solver_args,
+                                compare=_soft("match_solver", _compare_solver), determined=False,
+                                nontrivial=_nontrivial, mode="exact", model_op="match")})
 
 
 def _observe_op(base, inp):
@@ -1547,8 +1606,8 @@ def _sym_thunk(n, m, asg):
         import builtins
         src, tgt, ids_s, ids_t = _stub_geoms(n, m)
 
-        def aff(g1, g2, *a, **kw):
-            return Sym.var(names[ids_s[id(g1)]][ids_t[id(g2)]])
+        def aff(geometry1=None, geometry2=None, *a, **kw):
+            return Sym.var(names[ids_s[id(geometry1)]][ids_t[id(geometry2)]])
 
         solver = _solver_stub(n, m, asg)
 
